@@ -158,6 +158,9 @@ def run_config(chk, ctx, name):
     chk.ob("W2.core-calls-key-increment", name, corefn is not None and any(F.call_targets(corefn, t) == [kinc.path] for b, t in corefn.calls()),
            "the signing core does not call %s" % kinc.path)
 
+    # the in-memory signing key must take over every successor the core hands it - including the wiped one (shared with C04-R5)
+    c04.in_memory_key_rules(chk, F, A, tag, "W2")
+
     # ---------------- W3 ----------------
     dec, xf = an["decoder"], an["expansion"]
     oks = [b for b, d, e in c04.ret_defs(dec) if not e]
